@@ -210,3 +210,29 @@ T('C20', 'em-coef-spelled', [(MECH, "            p = softmax(0.5*epsilon/sensiti
 T('C20', 'mst-two-step-coef', [(MST, "    scores = coef*eps/sensitivity*q\n", "    scale = coef*eps/sensitivity\n    scores = scale*q\n")])
 T('C20', 'laplace-scale-ifexp', [(MECH, "        if self.bounded: l1_sensitivity *= 2.0\n        return l1_sensitivity / epsilon", "        return (2.0 if self.bounded else 1.0) * l1_sensitivity / epsilon")])
 T('C20', 'sampler-keywords', [(MECH, "        return self.prng.laplace(0, b, size)", "        return self.prng.laplace(loc=0, scale=b, size=size)")])
+
+# ------------------------------------------------------------------ C09
+MI = 'src/mbi/mixture_inference.py'
+_VAR = "                    variances = np.append(variances, noise**2 * np.dot(v, v))"
+K('C09', 'inf-noise-not-squared', [(INF, _VAR, "                    variances = np.append(variances, noise * np.dot(v, v))")], 'variance-form')
+K('C09', 'inf-no-floor', [(INF, "                total = max(1, estimate)", "                total = estimate")], 'floor-and-default')
+K('C09', 'inf-append-outside-test', [(INF, "                if np.allclose(Q.T.dot(v), o):\n" + _VAR + "\n                    estimates = np.append(estimates, np.dot(v, y))",
+                                          "                if np.allclose(Q.T.dot(v), o):\n" + _VAR + "\n                estimates = np.append(estimates, np.dot(v, y))")], 'guarded-append')
+K('C09', 'inf-floor-supplied-total', [(INF, "        #if not self.warm_start or not hasattr(self, 'model'):\n        # initialize the model and parameters\n        cliques = [m[3] for m in measurements] \n        if self.structural_zeros is not None:\n            cliques += list(self.structural_zeros.keys())\n\n        model = GraphicalModel(",
+                                           "        total = max(1, total)\n        cliques = [m[3] for m in measurements] \n        if self.structural_zeros is not None:\n            cliques += list(self.structural_zeros.keys())\n\n        model = GraphicalModel(")], 'pass-through')
+K('C09', 'inf-average-by-variance', [(INF, "                variance = 1.0 / np.sum(1.0 / variances)\n                estimate = variance * np.sum(estimates / variances)\n                total = max(1, estimate)",
+                                          "                estimate = np.average(estimates, weights=variances)\n                total = max(1, estimate)")], 'combination-form')
+K('C09', 'li-lsmr-default-tol', [(LI, "                v = lsmr(Q.T, o, atol=0, btol=0)[0]", "                v = lsmr(Q.T, o)[0]")], 'sibling-agreement')
+K('C09', 'pi-test-other-operator', [(PI, "        if np.allclose(Q.T.dot(v), o):", "        if np.allclose(Q.dot(Q.T.dot(v)), Q.dot(o)):")], 'same-system')
+K('C09', 'pi-estimate-uses-o', [(PI, "            estimates = np.append(estimates, np.dot(v, y))", "            estimates = np.append(estimates, np.dot(o, y))")], 'estimate-form')
+K('C09', 'mi-default-zero', [(MI, "    if estimates.size == 0:\n        return 1", "    if estimates.size == 0:\n        return 0")], 'floor-and-default')
+K('C09', 'pi-caller-scales-total', [(PI, "        if total is None:\n            total = estimate_total(measurements)\n        self.measurements = measurements", "        if total is None:\n            total = estimate_total(measurements)\n        total = float(int(total))\n        self.measurements = measurements")], 'pass-through')
+T('C09', 'inf-variance-inlined', [(INF, "                variance = 1.0 / np.sum(1.0 / variances)\n                estimate = variance * np.sum(estimates / variances)\n                total = max(1, estimate)",
+                                       "                estimate = np.sum(estimates / variances) / np.sum(1.0 / variances)\n                total = max(1, estimate)"),
+                                  (LI, "                variance = 1.0 / np.sum(1.0 / variances)\n                estimate = variance * np.sum(estimates / variances)\n                total = max(1, estimate)",
+                                       "                estimate = np.sum(estimates / variances) / np.sum(1.0 / variances)\n                total = max(1, estimate)"),
+                                  (PI, "        variance = 1.0 / np.sum(1.0 / variances)\n        estimate = variance * np.sum(estimates / variances)\n        return max(1, estimate)",
+                                       "        estimate = np.sum(estimates / variances) / np.sum(1.0 / variances)\n        return max(1, estimate)"),
+                                  (MI, "        variance = 1.0 / np.sum(1.0 / variances)\n        estimate = variance * np.sum(estimates / variances)\n        return max(1, estimate)",
+                                       "        estimate = np.sum(estimates / variances) / np.sum(1.0 / variances)\n        return max(1, estimate)")])
+K('C09', 'li-approx-default-total', [(LI, "            model = RegionGraph(self.domain, cliques, total, convex=False, iters=self.inner_iters)", "            model = RegionGraph(self.domain, cliques, convex=False, iters=self.inner_iters)")], 'pass-through')
